@@ -677,8 +677,13 @@ impl<'a> FormatParser<'a> {
 
     #[inline]
     fn punctuation_count(&mut self, expect: u8) -> u8 {
+        // One field holds at most `u8::MAX` characters including the one already
+        // popped; a longer run continues in the next field.
         self.remain().map_or(0, |rem| {
-            rem.iter().take_while(|&y| y.eq(&expect)).count() as u8
+            rem.iter()
+                .take(u8::MAX as usize - 1)
+                .take_while(|&y| y.eq(&expect))
+                .count() as u8
         })
     }
 
